@@ -214,7 +214,7 @@ def r3(ctx):
     from . import c01, c09
     ctx.sub(c01.r9)     # cost table = -loglik; stored cost = kernel's second result
     from . import c05
-    ctx.sub(c05.r2, only=("table:ranges", "table:row", "table:same-k", "table:return", "wrapper:return"))   # ... with an entry for every point and cluster
+    ctx.sub(c05.r2, only=("table:ranges", "table:row", "table:same-k", "table:return", "wrapper:"))   # ... with an entry for every point and cluster
     # "... plus the switching cost of every consecutive labelled pair, within one series": the price the kernel charges is the
     # caller's beta (single-series front end), and in a joint run the beta masked at the series boundaries (C07.R3; on the delivered
     # tree the unmasked value reaches the loop - the known finding F4b shows here as well)
